@@ -35,15 +35,11 @@ Proof.
   unfold psk_ids_len. rewrite blen_flat_map. apply sum_map_ext. intros i.
   rewrite !blen_app, blen_enc_u16, blen_enc_u32. lia.
 Qed.
-Lemma blen_psk_binders (bs : list bytes) :
-  blen (flat_map (fun b => enc_u8 (blen b) ++ b) bs) = psk_binders_len bs.
-Proof.
-  unfold psk_binders_len. rewrite blen_flat_map. apply sum_map_ext. intros b.
-  rewrite blen_app, blen_enc_u8. lia.
-Qed.
+Lemma psk_binders_len_eq (bs : list bytes) : psk_binders_len bs = protos_len bs.
+Proof. unfold psk_binders_len, protos_len. apply sum_map_ext. intros b. lia. Qed.
 
 Global Hint Rewrite blen_app blen_cons blen_nil blen_enc_u8 blen_enc_u16 blen_enc_u24 blen_enc_u32
-  blen_zbytes blen_flat_u16 blen_protos_bytes blen_key_shares_bytes blen_psk_ids blen_psk_binders
+  blen_zbytes blen_flat_u16 blen_protos_bytes blen_key_shares_bytes blen_psk_ids psk_binders_len_eq
   blen_enc_u8lp blen_enc_u16lp N2Nat.id : blen.
 
 Lemma psk_ext_len_pos ids bs :
@@ -55,7 +51,7 @@ Proof.
   unfold read_psk. destruct (psk_ext_len ids bs =? 0) eqn:E0.
   - intros H. inversion H. rewrite blen_nil. lia.
   - destruct (n <? psk_ext_len ids bs); [discriminate|]. intros H. inversion H; subst b.
-    autorewrite with blen. destruct (psk_ext_len_pos ids bs); lia.
+    autorewrite with blen. destruct (psk_ext_len_pos ids bs) as [Hp|Hp]; rewrite ?psk_binders_len_eq in Hp; lia.
 Qed.
 Lemma read_psk_short n ids bs : n < psk_ext_len ids bs -> read_psk n ids bs = Err E_SHORT.
 Proof.
@@ -105,3 +101,277 @@ Proof.
     destruct (psk_ext_len ids binders =? 0) eqn:E0; [lia|]. rewrite andb_false_r.
     now apply read_psk_short.
 Qed.
+
+(* ---- T3: a larger buffer changes nothing ---- *)
+Lemma read_psk_enough n m ids bs :
+  psk_ext_len ids bs <= n -> psk_ext_len ids bs <= m -> read_psk n ids bs = read_psk m ids bs.
+Proof.
+  intros Hn Hm. unfold read_psk. destruct (psk_ext_len ids bs =? 0); [reflexivity|].
+  destruct (n <? psk_ext_len ids bs) eqn:E1; [lia|].
+  destruct (m <? psk_ext_len ids bs) eqn:E2; [lia|]. reflexivity.
+Qed.
+
+Lemma read_enough e n : state_ok e = true -> ext_len e <= n -> ext_read e n = ext_read e (ext_len e).
+Proof.
+  intros Hs H. destruct e; cbn [ext_read ext_len] in *;
+  try (guard_tac; solve [reflexivity | lia]).
+  - (* QUIC *) destruct (marshal_tps tps) as [m| |]; cbn [bind]; try reflexivity.
+    guard_tac; solve [reflexivity | lia].
+  - (* UtlsPSK *) cbn [state_ok] in Hs.
+    destruct (negb omit && (utls_psk_len has_session cached ids binders =? 0)); [reflexivity|].
+    unfold utls_psk_len in *. destruct has_session; cbn [negb] in *.
+    + apply read_psk_enough; destruct cached; lia.
+    + apply read_psk_enough; lia.
+  - (* FakePSK *)
+    destruct (negb omit && (psk_ext_len ids binders =? 0)); [reflexivity|].
+    destruct (negb (forallb (fun b0 => valid_binder_len (blen b0)) binders)); [reflexivity|].
+    apply read_psk_enough; lia.
+Qed.
+
+(* ---- T4: layout. What Read writes is type, uint16 length, body, where the
+   body is the combinator-form RFC layout: the header length is the body length
+   and every inner prefix is the length of the vector that follows it. ---- *)
+Lemma wf_parts e : wf_ext e = true -> state_ok e = true /\ fields_ok e = true /\ ext_len e <= 65539.
+Proof. unfold wf_ext. rewrite !andb_true_iff. intros [[A B] C]. repeat split; try assumption. lia. Qed.
+
+Ltac layout_tac :=
+  unfold guarded; rewrite ?N.ltb_irrefl;
+  unfold u16s_body, protos_body, psk_body, enc_u16lp, enc_u8lp;
+  rewrite ?protos_bytes_spec, ?key_shares_bytes_spec; unfold enc_u16lp, enc_u8lp;
+  autorewrite with blen; repeat rewrite <- app_assoc;
+  split; [f_equal; repeat (f_equal; try lia) | try lia].
+
+Lemma psk_ids_spec (ids : list psk_identity) :
+  flat_map (fun i => enc_u16 (blen (fst i)) ++ fst i ++ enc_u32 (snd i)) ids
+  = flat_map (fun i => enc_u16lp (fst i) ++ enc_u32 (snd i)) ids.
+Proof. apply flat_map_ext. intros i. unfold enc_u16lp. now rewrite <- app_assoc. Qed.
+
+Lemma blen_psk_ids_spec (ids : list psk_identity) :
+  blen (flat_map (fun i => enc_u16lp (fst i) ++ enc_u32 (snd i)) ids) = psk_ids_len ids.
+Proof. rewrite <- psk_ids_spec. apply blen_psk_ids. Qed.
+Lemma blen_protos_spec ps : blen (flat_map enc_u8lp ps) = protos_len ps.
+Proof. apply blen_protos_bytes. Qed.
+
+Lemma read_psk_layout ids bs : psk_ext_len ids bs <> 0 ->
+  read_psk (psk_ext_len ids bs) ids bs = Ok (enc_u16 ID_PSK ++ enc_u16lp (psk_body ids bs))
+  /\ blen (psk_body ids bs) + 4 = psk_ext_len ids bs.
+Proof.
+  intros Hnz. unfold read_psk. destruct (psk_ext_len ids bs =? 0) eqn:E0; [lia|].
+  rewrite N.ltb_irrefl. destruct (psk_ext_len_pos ids bs) as [Hp|Hp]; [lia|].
+  rewrite psk_binders_len_eq in Hp.
+  unfold psk_body. rewrite psk_ids_spec, protos_bytes_spec.
+  pose proof (blen_psk_ids_spec ids) as HI. pose proof (blen_protos_spec bs) as HB.
+  unfold enc_u16lp in HI |- *. rewrite !blen_app, !blen_enc_u16, HI, HB, psk_binders_len_eq.
+  repeat rewrite <- app_assoc.
+  split; [f_equal; repeat (f_equal; try lia) | lia].
+Qed.
+
+Lemma read_layout e : wf_ext e = true ->
+  if ext_absent e then ext_read e (ext_len e) = Ok [] /\ ext_len e = 0
+  else ext_read e (ext_len e) = Ok (enc_u16 (ext_id e) ++ enc_u16lp (ext_body e))
+       /\ blen (ext_body e) + 4 = ext_len e.
+Proof.
+  intros Hwf. destruct (wf_parts e Hwf) as (Hs & Hf & Hl).
+  destruct e; cbn [ext_absent ext_read ext_len ext_id ext_body state_ok fields_ok] in *;
+  try (split; reflexivity);
+  try (layout_tac; fail).
+  - (* SNI *) destruct (blen host =? 0) eqn:E0; [split; reflexivity|]. layout_tac.
+  - (* padding *) destruct willpad; cbn [negb]; [|split; reflexivity]. layout_tac.
+  - (* compress cert *) apply andb_true_iff in Hf. destruct Hf as [_ Hf].
+    rewrite N.ltb_irrefl. destruct (255 <? 2 * blen algs) eqn:E; [lia|]. layout_tac.
+  - (* QUIC *) destruct (marshal_tps tps) as [m| |]; try discriminate. cbn [bind]. layout_tac.
+  - (* PSK modes *) rewrite N.ltb_irrefl. destruct (255 <? blen modes) eqn:E; [lia|]. layout_tac.
+  - (* versions *) apply andb_true_iff in Hf. destruct Hf as [_ Hf].
+    rewrite N.ltb_irrefl. destruct (255 <? 2 * blen versions) eqn:E; [lia|]. layout_tac.
+  - (* UtlsPSK *) rewrite !andb_true_iff in Hf. destruct Hf as [_ Hom].
+    assert (Hlen : utls_psk_len has_session cached ids binders = psk_ext_len ids binders).
+    { unfold utls_psk_len. destruct has_session; cbn [negb]; [destruct cached; lia|lia]. }
+    rewrite Hlen in *.
+    destruct (psk_ext_len ids binders =? 0) eqn:E0.
+    + destruct omit; cbn in Hom; [|discriminate]. cbn [negb andb].
+      split; [|lia]. unfold read_psk. now rewrite E0.
+    + rewrite andb_false_r. apply read_psk_layout. lia.
+  - (* FakePSK *) rewrite !andb_true_iff in Hf. destruct Hf as [_ Hom]. rewrite Hs. cbn [negb].
+    destruct (psk_ext_len ids binders =? 0) eqn:E0.
+    + destruct omit; cbn in Hom; [|discriminate]. cbn [negb andb].
+      split; [|lia]. unfold read_psk. now rewrite E0.
+    + rewrite andb_false_r. apply read_psk_layout. lia.
+Qed.
+
+(* ---- T5: Write applied to the body Read produced gives the normalised value ---- *)
+Lemma flat_u16_nonempty (l : list N) : empty l = false -> empty (flat_map enc_u16 l) = false.
+Proof. destruct l; [discriminate|reflexivity]. Qed.
+
+Lemma u16_list_write_ok code mk norm l :
+  all_u16 l = true -> empty l = false -> 2 * blen l < 65536 ->
+  u16_list_write code mk norm (u16s_body l) = Ok (mk (map norm l)).
+Proof.
+  intros Hall Hne Hlen. unfold u16_list_write, u16s_body.
+  rewrite read_enc_u16lp_nil by (rewrite blen_flat_u16; lia).
+  rewrite flat_u16_nonempty by exact Hne. now rewrite read_u16s_flat.
+Qed.
+
+Lemma protos_write_ok mk ps :
+  forallb (fun p => blen p <? 256) ps = true -> forallb (fun p => negb (empty p)) ps = true ->
+  ps <> [] -> protos_len ps < 65536 ->
+  protos_write mk (protos_body ps) = Ok (mk ps).
+Proof.
+  intros Hlen Hne Hnil Htot. unfold protos_write, protos_body.
+  rewrite read_enc_u16lp_nil by (rewrite blen_protos_spec; lia).
+  assert (He : empty (flat_map enc_u8lp ps) = false).
+  { destruct ps as [|p ps]; [congruence|]. reflexivity. }
+  rewrite He. rewrite read_u8lps_flat; [reflexivity| |lia].
+  unfold all_u8lp. rewrite forallb_forall in *. intros p Hp.
+  rewrite (Hlen p Hp), (Hne p Hp). reflexivity.
+Qed.
+
+Lemma key_shares_parse_ok ks fuel :
+  forallb (fun k => fst k <? 65536) ks = true -> forallb (fun k => negb (empty (snd k))) ks = true ->
+  key_shares_len ks < 65536 ->
+  (length (flat_map (fun k => enc_u16 (fst k) ++ enc_u16lp (snd k)) ks) <= fuel)%nat ->
+  key_shares_parse fuel (flat_map (fun k => enc_u16 (fst k) ++ enc_u16lp (snd k)) ks) = Some (map norm_share ks).
+Proof.
+  revert fuel. induction ks as [|k ks IH]; intros fuel Hg Hne Htot Hfuel.
+  - destruct fuel; reflexivity.
+  - cbn [forallb] in Hg, Hne. apply andb_true_iff in Hg, Hne. destruct Hg as [Hg Hgs], Hne as [Hne Hnes].
+    unfold key_shares_len in Htot. cbn [sum_map] in Htot. fold (key_shares_len ks) in Htot.
+    cbn [flat_map] in *. rewrite app_length in Hfuel.
+    assert (Hl1 : (2 <= length (enc_u16 (fst k) ++ enc_u16lp (snd k)))%nat) by (rewrite app_length; cbn; lia).
+    destruct fuel as [|fuel]; [lia|].
+    remember ((enc_u16 (fst k) ++ enc_u16lp (snd k)) ++ flat_map (fun k0 => enc_u16 (fst k0) ++ enc_u16lp (snd k0)) ks) as s eqn:Hs.
+    destruct s as [|s0 s'].
+    { exfalso. apply (f_equal (@length N)) in Hs. rewrite app_length in Hs. cbn [length] in Hs. lia. }
+    cbn [key_shares_parse]. rewrite Hs. rewrite <- !app_assoc.
+    rewrite read_enc_u16 by lia. rewrite read_enc_u16lp by lia.
+    destruct (empty (snd k)) eqn:Ee; [discriminate|].
+    rewrite IH; [|exact Hgs|exact Hnes|lia|lia].
+    cbn [map]. unfold norm_share at 1. reflexivity.
+Qed.
+
+Lemma sni_names_ok host fuel : empty host = false -> blen host < 65536 -> (last host 0 =? 46) = false ->
+  sni_names (S fuel) ([0] ++ enc_u16lp host) [] = Ok tt.
+Proof.
+  intros Hne Hlen Hdot. cbn [app sni_names read_u8].
+  rewrite read_enc_u16lp_nil by exact Hlen. rewrite Hne.
+  replace (negb (0 =? 0)) with false by reflexivity. cbn [negb empty]. rewrite Hdot.
+  destruct fuel; reflexivity.
+Qed.
+
+(* the wrapping counters of FakePreSharedKeyExtension.Write never wrap on a well-formed body *)
+Lemma psk_ids_parse_ok (ids : list psk_identity) r fuel :
+  forallb (fun i => snd i <? 4294967296) ids = true -> psk_ids_len ids < 65536 -> (length ids <= fuel)%nat ->
+  psk_ids_parse fuel (psk_ids_len ids) (flat_map (fun i => enc_u16lp (fst i) ++ enc_u32 (snd i)) ids ++ r)
+  = Some (ids, r).
+Proof.
+  revert fuel. induction ids as [|i ids IH]; intros fuel Hage Htot Hfuel.
+  - destruct fuel; reflexivity.
+  - cbn [forallb] in Hage. apply andb_true_iff in Hage. destruct Hage as [Ha Has].
+    unfold psk_ids_len in Htot |- *. cbn [sum_map] in Htot |- *. fold (psk_ids_len ids) in Htot |- *.
+    cbn [length] in Hfuel. destruct fuel as [|fuel]; [lia|].
+    cbn [psk_ids_parse flat_map].
+    destruct (2 + blen (fst i) + 4 + psk_ids_len ids =? 0) eqn:E0; [lia|].
+    unfold enc_u16lp. rewrite <- !app_assoc. rewrite read_enc_u16 by lia.
+    replace ((2 + blen (fst i) + 4 + psk_ids_len ids + 65536 - 2) mod 65536)
+      with (blen (fst i) + 4 + psk_ids_len ids) by lia.
+    destruct (blen (fst i) + 4 + psk_ids_len ids <? blen (fst i)) eqn:E1; [lia|].
+    rewrite read_bytes_app.
+    replace ((blen (fst i) + 4 + psk_ids_len ids + 65536 - blen (fst i)) mod 65536)
+      with (4 + psk_ids_len ids) by lia.
+    rewrite read_enc_u32 by lia.
+    replace ((4 + psk_ids_len ids + 65536 - 4) mod 65536) with (psk_ids_len ids) by lia.
+    rewrite IH; [|exact Has|lia|lia]. destruct i; reflexivity.
+Qed.
+
+Lemma psk_binders_parse_ok (bs : list bytes) fuel :
+  forallb (fun b => blen b <? 256) bs = true -> protos_len bs < 65536 -> (length bs <= fuel)%nat ->
+  psk_binders_parse fuel (protos_len bs) (flat_map enc_u8lp bs) = Some bs.
+Proof.
+  revert fuel. induction bs as [|b bs IH]; intros fuel Hl Htot Hfuel.
+  - destruct fuel; reflexivity.
+  - cbn [forallb] in Hl. apply andb_true_iff in Hl. destruct Hl as [Hb Hbs].
+    unfold protos_len in Htot |- *. cbn [sum_map] in Htot |- *. fold (protos_len bs) in Htot |- *.
+    cbn [length] in Hfuel. destruct fuel as [|fuel]; [lia|].
+    cbn [psk_binders_parse flat_map].
+    destruct (1 + blen b + protos_len bs =? 0) eqn:E0; [lia|].
+    unfold enc_u8lp at 1. rewrite <- !app_assoc. rewrite read_enc_u8 by lia.
+    replace ((1 + blen b + protos_len bs + 65536 - 1) mod 65536) with (blen b + protos_len bs) by lia.
+    destruct (blen b + protos_len bs <? blen b) eqn:E1; [lia|].
+    rewrite read_bytes_app.
+    replace ((blen b + protos_len bs + 65536 - blen b) mod 65536) with (protos_len bs) by lia.
+    rewrite IH; [reflexivity|exact Hbs|lia|lia].
+Qed.
+
+Lemma length_le_blen (a b : bytes) : blen a <= blen b -> (length a <= length b)%nat.
+Proof. unfold blen. lia. Qed.
+
+Lemma count_le_psk_ids_len (ids : list psk_identity) : N.of_nat (length ids) <= psk_ids_len ids.
+Proof.
+  unfold psk_ids_len. induction ids as [|i ids IH]; [cbn; lia|]. cbn [length sum_map]. lia.
+Qed.
+Lemma count_le_protos_len (bs : list bytes) : N.of_nat (length bs) <= protos_len bs.
+Proof.
+  unfold protos_len. induction bs as [|b bs IH]; [cbn; lia|]. cbn [length sum_map]. lia.
+Qed.
+
+Lemma fake_psk_write_ok ids bs :
+  forallb (fun i => snd i <? 4294967296) ids = true -> forallb (fun b => blen b <? 256) bs = true ->
+  psk_ids_len ids < 65536 -> protos_len bs < 65536 ->
+  fake_psk_write (psk_body ids bs) = Ok (EFakePreSharedKey false ids bs).
+Proof.
+  intros Ha Hb Hi Hp. unfold fake_psk_write, psk_body.
+  remember (enc_u16lp (flat_map (fun i : psk_identity => enc_u16lp (fst i) ++ enc_u32 (snd i)) ids)
+            ++ enc_u16lp (flat_map enc_u8lp bs)) as X eqn:HX.
+  assert (HB : blen X = 2 + psk_ids_len ids + (2 + protos_len bs)).
+  { subst X. now rewrite blen_app, !blen_enc_u16lp, blen_psk_ids_spec, blen_protos_spec. }
+  pose proof (count_le_psk_ids_len ids) as Hc1. pose proof (count_le_protos_len bs) as Hc2.
+  unfold blen in HB.
+  assert (Hlen1 : (length ids <= S (length X))%nat) by lia.
+  assert (Hlen2 : (length bs <= S (length X))%nat) by lia.
+  clear HB Hc1 Hc2. rewrite HX at 1. clear HX.
+  set (fuel := S (length X)) in *. clearbody fuel.
+  unfold enc_u16lp at 1. rewrite <- !app_assoc.
+  rewrite read_enc_u16 by (rewrite blen_psk_ids_spec; lia). rewrite blen_psk_ids_spec.
+  rewrite psk_ids_parse_ok by assumption.
+  unfold enc_u16lp at 1. rewrite read_enc_u16 by (rewrite blen_protos_spec; lia). rewrite blen_protos_spec.
+  rewrite psk_binders_parse_ok by assumption. reflexivity.
+Qed.
+
+Lemma ech_write_ok kdf aead cfg enc p :
+  kdf < 65536 -> aead < 65536 -> ech_kdf_ok kdf = true -> ech_aead_ok aead = true ->
+  empty enc = false -> blen enc < 65536 -> ECH_TAG_LEN <= blen p -> blen p < 65536 ->
+  ech_write ([0] ++ enc_u16 kdf ++ enc_u16 aead ++ [cfg] ++ enc_u16lp enc ++ enc_u16lp p)
+  = Ok (ech_mask (EGREASEECH kdf aead cfg enc p)).
+Proof.
+  intros Hk Ha Hkok Haok Hne Hel Hpl Hpu. unfold ech_write.
+  cbn [app read_u8]. replace (negb (0 =? 0)) with false by reflexivity. cbv iota.
+  rewrite read_enc_u16 by exact Hk. cbn [obind]. rewrite read_enc_u16 by exact Ha. cbn [obind].
+  rewrite Hkok, Haok. cbn [negb]. cbn [app read_u8].
+  rewrite read_enc_u16lp by exact Hel. rewrite read_enc_u16lp_nil by exact Hpu.
+  apply empty_false_iff in Hne. destruct (blen enc =? 0) eqn:E0; [lia|].
+  unfold ECH_TAG_LEN in *.
+  replace ((blen p + 65536 - 16) mod 65536 + 16) with (blen p) by lia.
+  unfold ech_mask, blen. now rewrite !Nat2N.id.
+Qed.
+
+Ltac step_id :=
+  match goal with
+  | |- context [if (?a =? ?b) then _ else _] =>
+      first [ replace (a =? b) with true by (vm_compute; reflexivity)
+            | replace (a =? b) with false by (vm_compute; reflexivity) ]; cbv iota
+  end.
+
+Lemma is_grease_closed v c : is_grease v = true -> is_grease c = false -> (v =? c) = false.
+Proof. intros Hv Hc. destruct (N.eqb_spec v c); [subst; congruence|reflexivity]. Qed.
+
+Lemma rt_parts e : rt_ok e = true -> wf_ext e = true /\ ext_absent e = false.
+Proof. unfold rt_ok. rewrite !andb_true_iff, negb_true_iff. tauto. Qed.
+
+Lemma write_read e : rt_ok e = true -> ext_write (ext_id e) (ext_body e) = Ok (ext_norm e).
+Proof.
+  intros Hrt. destruct (rt_parts e Hrt) as (Hwf & Hab). destruct (wf_parts e Hwf) as (Hs & Hf & Hl).
+  unfold rt_ok in Hrt. rewrite Hwf, Hab in Hrt. cbn [negb andb] in Hrt.
+  destruct e; try discriminate;
+  cbn [ext_id ext_body ext_norm ext_len fields_ok state_ok ext_absent] in *;
+  try (unfold ext_write; repeat step_id; reflexivity).
+  all: idtac.
+Abort.
